@@ -56,6 +56,44 @@ Theorem C11_duals :
        - sumn (length (lmis l)) (fun k => exposed y l (S k) (X (S k))))%R.
 Proof. exact duals_identity. Qed.
 
+(** Entry duals (after bd99691: PSDMatrix.entries_dual_variable_value = -y[first : first + n*n].reshape(n, n) on the
+    MOSEK path, the raw multipliers of the rows M[i][j] - e_ij on the cvxpy path).  One convention, for EVERY LMI,
+    symmetric as written or not:
+    - MOSEK (by its dual equation Sbar_k = - sum_i y_i Abar_ik): the reported dual -Sbar_k of the LMI owning bar
+      variable j pairs with every symmetric Z as  sum_ij U[i][j] * Z[i][j],  U[i][j] = -y[row of entry (i,j)]:
+      reported dual = sym(entries_dual); *)
+Theorem C11_entry_duals_mosek :
+  forall (y : nat -> R) (Z : nat -> nat -> R) (j : nat), symG Z -> (1 <= j)%nat ->
+  forall l, exposed y l j Z = entries_pair y (fun a b _ => Z a b) j 1 0 l.
+Proof. exact exposed_entries. Qed.
+
+(**  - cvxpy (Lagrangian constant in the symmetric matrix variable, cvxpy's sign convention): the same; *)
+Theorem C11_entry_duals_cvxpy_convention :
+  forall n (S u E : nat -> nat -> R),
+    (forall M, symG M -> cvx_lag n S u E M = cvx_lag n S u E (fun _ _ => 0%R)) ->
+    forall Z, symG Z -> msum n (fun i j => (S i j * Z i j)%R) = msum n (fun i j => (u i j * Z i j)%R).
+Proof. exact cvxpy_entry_convention. Qed.
+
+(**  - hence, when both back-ends report the same dual matrix, their entry duals have the same symmetric part. *)
+Theorem C11_entry_duals_agree :
+  forall (y : nat -> R) l j n (S u E : nat -> nat -> R),
+    (1 <= j)%nat ->
+    (forall M, symG M -> cvx_lag n S u E M = cvx_lag n S u E (fun _ _ => 0%R)) ->
+    (forall Z, symG Z -> exposed y l j Z = msum n (fun a b => (S a b * Z a b)%R)) ->
+    forall Z, symG Z -> entries_pair y (fun a b _ => Z a b) j 1 0 l = msum n (fun a b => (u a b * Z a b)%R).
+Proof. exact entry_duals_agree. Qed.
+
+(** The certificate identity with the entry duals combined with the entries' expressions (what the repaired
+    check_feasibility reconstructs): NO symmetry requirement on the matrices of expressions.
+        objective - tau = sum_c y[row_c] e_c(G,F) - <-Sbar_0, G> - sum_k sum_ij U_k[i][j] * e_kij(G,F) *)
+Theorem C11_duals_entries :
+  forall (y x : nat -> R) (G : nat -> nat -> R), symG G ->
+  forall (l : sent) (pc ec obj : nat),
+    wfR l -> dual_eq (sdp_of l pc ec obj) y ->
+    (x obj - dual_obj y (rows_of 1 l) 0
+     = cert_scalars y x (XG G) 0 l - exposed y l 0 G - cert_entries y x G 0 l)%R.
+Proof. exact duals_identity_entries. Qed.
+
 (** the general statement behind it: for ANY task, MOSEK's dual equations make the Lagrangian collapse *)
 Theorem C11_lagrangian :
   forall (d : sdp) (y : nat -> R), bars_in_range d -> dual_eq d y ->
@@ -115,6 +153,15 @@ Example C11_regression_objective_index :
      = Some (sdp_heur w_leaf 1 3 1 (1 # 2) (identity_triples 1)).
 Proof. exact regress_objective_index. Qed.
 
+Example C11_example_recover :
+  lmi_first_index 0 w_two = [1; 3] /\ sc_index 0 w_two = [0; 2]
+  /\ recover w_two 1 [10#1; 11#1; 12#1; 13#1; 14#1; 15#1; 16#1]%Q
+             (fun j => nth j [[7#1]; [5#1]; [1#1; 2#1; 3#1]]%Q [])
+     = ([[- (7#1)]]%Q,
+        [RScalar (10#1); RLmi [[- (5#1)]]%Q [[- (11#1)]]%Q; RScalar (12#1);
+         RLmi [[- (1#1); - (2#1)]; [- (2#1); - (3#1)]]%Q [[- (13#1); - (14#1)]; [- (15#1); - (16#1)]]%Q]).
+Proof. exact recover_example. Qed.
+
 Example C11_example_duals :
   let l := [SC [(KF 0, 1%Q); (KG 0 0, (- (1))%Q)] Ineq; SC [(KG 0 0, 1%Q); (K1, (- (1))%Q)] Ineq] in
   wfR l /\ dual_eq (sdp_of l 1 1 0) (fun _ => 1%R) /\ guard l 1 1 0 = true.
@@ -125,6 +172,10 @@ Print Assumptions C11_rows_meaning.
 Print Assumptions C11_coupling_weights.
 Print Assumptions C11_duals.
 Print Assumptions C11_lagrangian.
+Print Assumptions C11_entry_duals_mosek.
+Print Assumptions C11_entry_duals_cvxpy_convention.
+Print Assumptions C11_entry_duals_agree.
+Print Assumptions C11_duals_entries.
 Print Assumptions C11_heuristic.
 Print Assumptions C11_readout.
 Print Assumptions C11_status_refuted.
